@@ -121,8 +121,13 @@ def standard(chk, ids, scale=1.0, stops=(), label="nodes"):
     mates = searches.mate_positions(chk, [chk.seed % 7] if q else [chk.seed % 7, (chk.seed + 3) % 7], 40 if q else 8)
     draws = searches.draw_positions(chk, [chk.seed % 8] if q else [chk.seed % 8, (chk.seed + 3) % 8], 24 if q else 6)
     pool = searches.root_positions() + searches.walk_positions(chk, 60 if q else 400)
+    # positions whose legal moves are all captures (boxed-in king in check): a search that loses a capture there claims mate
+    nq = searches.family_positions(chk, "noquiet", [chk.seed % 8] if q else [chk.seed % 8, (chk.seed + 3) % 8], 4 if q else 1)
+    chk.rng.shuffle(nq)
+    chk.rng.shuffle(pool)
+    pool = pool[:int(20 * scale * (1 if q else 8))] + nq[:int(30 * scale) if q else int(300 * scale)]
     k = scale * (1 if q else 8)
-    nv, ndrift, nstat = node_phase(chk, ids, mates, draws, pool, n_mates=int(40 * k), n_draws=int(20 * k), n_pool=int(20 * k),
+    nv, ndrift, nstat = node_phase(chk, ids, mates, draws, pool, n_mates=int(40 * k), n_draws=int(20 * k), n_pool=len(pool),
                                    stops=stops, label=label)
     for w, what, det, ef in nv:
         chk.violation(w, what, det, replay={"kind": "node-trace", "trace": ef, "line": det["report"].get("at"),
